@@ -217,7 +217,80 @@ def r4_dir_ident_overrides(ctx, rep):
                        py.nloc(ci.methods["get_dir"]), nontrivial=False)
 
 
+LOSSY = ("re.sub", "replace", "translate", "lower", "upper", "strip", "casefold", "split", "encode")
+
+
+def r5_no_transformation_after_uniqueness(ctx, rep):
+    """the unique identifier is used verbatim wherever a file name or URL is composed."""
+    py = ctx.py
+
+    def lossy_calls(fn) -> List[str]:
+        out = []
+        for c in py.walk_calls(fn):
+            n = call_name(c)
+            if n in LOSSY or n.split(".")[-1] in LOSSY:
+                out.append(n)
+        for s in ast.walk(fn):
+            if isinstance(s, ast.Subscript) and isinstance(s.slice, ast.Slice) and "ident" in ast.unparse(s.value):
+                out.append("slice")
+        return out
+
+    def html_exprs(fn):
+        """the returned expressions that compose the page file name: for get_url the return under
+        `if loc := self.get_dir()`, otherwise every returned f-string / concatenation / attribute."""
+        out = []
+        for n in ast.walk(fn):
+            if isinstance(n, ast.If) and "self.get_dir()" in ast.unparse(n.test):
+                return [r.value for r in n.body if isinstance(r, ast.Return) and r.value is not None]
+        for n in ast.walk(fn):
+            if isinstance(n, ast.Return) and isinstance(n.value, (ast.JoinedStr, ast.BinOp, ast.Attribute)):
+                out.append(n.value)
+        return out
+
+    def check_site(label: str, fn, obj_prefix: str, exprs=None):
+        exprs = exprs if exprs is not None else html_exprs(fn)
+        if not exprs:
+            raise AnalysisError(f"{label}: no '<stem>.html' composition found")
+        for e in exprs:
+            src = ast.unparse(e)
+            attrs = [a for a in re.findall(re.escape(obj_prefix) + r"\.(\w+)", src) if a not in ("obj", "get_dir")]
+            bad_here = [call_name(c) for c in py.walk_calls(e) if call_name(c).split(".")[-1] in LOSSY]
+            if not attrs:
+                rep.ob(f"{label}: `{src[:50]}` stem", False, "the stem is not taken from the entity's ident", py.nloc(fn))
+            for a in attrs:
+                if a == "ident":
+                    rep.ob(f"{label} uses ident verbatim", not bad_here, f"`{src[:60]}`", py.nloc(fn))
+                    continue
+                r = py.resolve_method("FortranBase", a)
+                if r is None:
+                    rep.ob(f"{label} stem attribute `{a}`", False, f"`{a}` is not the unique ident", py.nloc(fn))
+                    continue
+                body = ast.unparse(r[1])
+                bad = lossy_calls(r[1])
+                ok = "self.ident" in body and not bad
+                rep.ob(f"{label} stem attribute `{a}`", ok,
+                       f"`{a}` returns the ident unchanged" if ok else
+                       f"the page name comes from `{a}`, which applies {bad or 'something other than ident'} after NameSelector "
+                       f"made the identifier unique: different identifiers (operator(+), operator(==)) collapse to one file "
+                       f"name and one page silently overwrites the other", py.nloc(r[1]))
+
+    gu = py.func("FortranBase.get_url")
+    check_site("FortranBase.get_url", gu, "self")
+    op = py.func("DocPage.object_page")
+    check_site("DocPage.object_page", op, "self.obj")
+    an = py.func("FortranBase.anchor")
+    check_site("FortranBase.anchor", an, "self", [n for n in ast.walk(an) if isinstance(n, ast.JoinedStr)])
+    # several procedures of one *generic* interface must keep their own identifiers
+    ip = py.func("FortranProcedure.is_interface_procedure")
+    ok = "not self.parent.generic" in ast.unparse(ip) and "isinstance(self.parent, FortranInterface)" in ast.unparse(ip)
+    rep.ob("only the single procedure of a non-generic interface borrows the interface's identifier", ok,
+           "ident/get_dir are redirected only for non-generic interface blocks (one procedure per block)" if ok else
+           "is_interface_procedure no longer excludes generic interfaces: every specific procedure written inside a named "
+           "interface takes the interface's ident, so they share one anchor id and one URL", py.nloc(ip))
+
+
 RULES = [
+    RuleSpec("C10.R5", r5_no_transformation_after_uniqueness, "no lossy transformation after the identifier was made unique", floor=4),
     RuleSpec("C10.R1", r1_counter_key, "collision key at least as coarse as the stem; injective symbol table", floor=5),
     RuleSpec("C10.R2", r2_write_targets_use_ident, "per-entity write targets use ident", floor=3),
     RuleSpec("C10.R3", r3_anchor_and_registry, "anchor quoting, single registry, memoisation", floor=4),
